@@ -13,7 +13,7 @@ from mc.canon import short
 
 ID = 'C16'
 LEVEL = 'model_checking'
-RULE = ('E2 explicit-state exploration of library state: events (37: '
+RULE = ('E2 explicit-state exploration of library state: events (42: '
         'construct with defaults, marshal, unmarshal valid, unmarshal '
         'invalid, failing constructions, the 3 toggles, call-then-mutate-'
         'the-result composites) applied to a freshly imported pamqp; state = '
@@ -41,7 +41,7 @@ ASSUMPTIONS = ['all library state is reachable from pamqp module globals, '
                'scheduling points are source lines inside pamqp: preemption '
                'inside a line and C-level races are not modelled (the GIL '
                'serialises bytecodes; pamqp has no C code and no locks)']
-SELFTEST_TASK = ('hist', 11, 2)
+SELFTEST_TASK = ('hist', 11, 1)
 
 _BASE = {}
 SHARDS = 8
